@@ -739,8 +739,10 @@ def run(ctx):
     ctx.trusted += [
         'the loop bookkeeping of every single-loop method (range bounds, np.empty size, store index, prefix slice, early-exit '
         'decrement, order store/test) is translated from the source on every run (tools/gen_loops.py, fail-closed) and proved to '
-        'refine the skeleton; what the oracles solve/reweight/diff compute is tied by trace validation (not proved); nested-loop '
-        'methods (brpls, pspline_brpls, goldindec) and beads are covered by the direct oracle only',
+        'refine the skeleton; what the oracles solve/reweight/diff compute is tied by trace validation (not proved); the nested-record '
+        'methods (brpls, pspline_brpls, goldindec) have their own two-level skeleton (C01/Nested.v, descriptors from GenNested) with '
+        'record-shape theorems and event-log trace validation, but which baseline/weights they return is not modelled; beads and jbcd '
+        'are covered by the direct oracle only',
         'finite output for noisy data is sampled (LAPACK / conditioning), not proved',
         'ordering of the outputs: proved only for the axis values individual_axes hands to its inner fitters (model '
         'C01/AxisOrder.v, tied by the recorded constructor calls); that the 1-D / 2-D wrappers (_sort_array with the '
@@ -750,15 +752,22 @@ def run(ctx):
         'are not exercised by the order oracle',
     ]
     ctx.gate()
-    ctx.translate(['GenLoops'])
-    ok = ctx.build_props(extra=['C01/Trace.vo'])
+    ctx.translate(['GenLoops', 'GenNested'])
+    ok = ctx.build_props(extra=['C01/Trace.vo', 'C01/NestedTrace.vo'])
     schema_vs_source(ctx)
     shape_correspondence(ctx)
+    from .c01_dtype import dtype_correspondence      # wrapper output-dtype rule (coq/C01/Dtype.v), harness/c01_dtype.py
+    dtype_correspondence(ctx)
     axis_correspondence(ctx)
     trace_validation(ctx)
+    from .c01_nested import nested_trace_validation      # two-level loops (coq/C01/Nested.v), harness/c01_nested.py
+    nn = nested_trace_validation(ctx, 1 if ctx.tier == 'quick' else 2)
+    ctx.note(f'nested-record methods: {nn} calls of brpls / pspline_brpls (1-D, 2-D) / goldindec replayed through the two-level skeleton')
     budget = 1 if (ok and not ctx.broken and ctx.tier == 'quick') else 3
     n = oracle(ctx, budget)
     ctx.note(f'direct oracle: {n} returning calls checked for shape/dtype/per-point keys/record length/finiteness (budget x{budget})')
+    from .c01_dtype import dtype_oracle      # first calls on objects / functions WITHOUT x_data (generated axes), non-float64 data
+    dtype_oracle(ctx)
     n = order_oracle(ctx)
     ctx.note(f'order oracle: {n} sorted-vs-unsorted pairs (every catalogue method, 1-D and 2-D, fresh fitters, non-involutive '
              'rotation / interleave / shuffle of x, of z, of both): baseline and per-point params entries equal the sorted-input '
@@ -767,6 +776,9 @@ def run(ctx):
 
 def replay(rep):
     case = rep.get('case') or {}
+    if case.get('kind') == 'nested':
+        from .c01_nested import replay_nested
+        return replay_nested(case)
     print('replay case:', case)
     if case.get('kind') == 'trace':
         from .common import Ctx
